@@ -316,4 +316,11 @@ def r4(ctx, rule="C19.R4"):
               f"__delitem__ body is {body}")
 
 
-RULES = [("C19.R1", r1), ("C19.R2", r2), ("C19.R3", r3), ("C19.R4", r4)]
+
+def f1(ctx):
+    """generic same-name parameter forwarding over this property's modules (see shared.generic_forwarding)."""
+    from . import shared as _sh
+    _sh.generic_forwarding(ctx, "C19.F1", _sh.PROPERTY_MODULES["C19"])
+
+
+RULES = [("C19.R1", r1), ("C19.R2", r2), ("C19.R3", r3), ("C19.R4", r4), ("C19.F1", f1)]
